@@ -7,7 +7,7 @@ mod snap;
 use samyama::graph::GraphStore;
 use samyama::snapshot::{export_tenant, import_tenant};
 use serde_json::json;
-use snap::ops::{build, gen_program, parse_ops, render_ops, Op};
+use snap::ops::{build, gen_big, gen_program, parse_ops, render_ops, Op};
 use snap::*;
 use std::io::Read;
 use std::panic::{catch_unwind, AssertUnwindSafe};
@@ -28,6 +28,12 @@ struct Outcome {
     import_err: Option<String>,
     src_nodes: usize,
     dst_nodes: usize,
+    src_edges: usize,
+    dst_edges: usize,
+    /// (node_count, edge_count) the export header announces
+    header_counts: Option<(u64, u64)>,
+    edge_id_hole_crosses_64: bool,
+    node_id_holes: bool,
     diff_hint: String,
 }
 
@@ -85,6 +91,11 @@ fn run_case(ops: &[Op]) -> Outcome {
             import_err: None,
             src_nodes: src.n_nodes,
             dst_nodes: 0,
+            src_edges: src.n_edges,
+            dst_edges: 0,
+            header_counts: None,
+            edge_id_hole_crosses_64: (src.max_edge_id / 64) as usize > src.n_edges / 64,
+            node_id_holes: src.max_node_id as usize > src.n_nodes,
             diff_hint: String::new(),
         };
         o.feat.versions = src.multi_version;
@@ -92,13 +103,18 @@ fn run_case(ops: &[Op]) -> Outcome {
             o.real = format!("export-failed {}", e);
             return o;
         }
-        o.lines = decode_lines(&buf).and_then(|l| canon_lines(&l, &src));
+        let decoded = decode_lines(&buf);
+        o.header_counts = decoded.as_ref().and_then(|l| l.first()).and_then(|h| serde_json::from_str::<serde_json::Value>(h).ok()).and_then(|h| {
+            Some((h.get("node_count")?.as_u64()?, h.get("edge_count")?.as_u64()?))
+        });
+        o.lines = decoded.and_then(|l| canon_lines(&l, &src));
         let mut dst = GraphStore::new();
         match import_tenant(&mut dst, &buf[..]) {
             Ok(st) => {
                 let d = dump_store(&dst);
                 o.real = format!("ok {} {}.{}.{}.{}", d.text, st.node_count, st.edge_count, st.merged_count, st.hierarchy_count);
                 o.dst_nodes = d.n_nodes;
+                o.dst_edges = d.n_edges;
                 o.diff_hint = diff_hint(&src, &d);
                 o.dst = Some(d.text);
                 // second generation: an imported store keeps scalars in columns only — export it
@@ -147,6 +163,11 @@ fn run_case(ops: &[Op]) -> Outcome {
                 import_err: None,
                 src_nodes: 0,
                 dst_nodes: 0,
+                src_edges: 0,
+                dst_edges: 0,
+                header_counts: None,
+                edge_id_hole_crosses_64: false,
+                node_id_holes: false,
                 diff_hint: String::new(),
             }
         }
@@ -223,6 +244,12 @@ fn signature(o: &Outcome, spec: &str) -> String {
     if o.import_err.is_some() {
         return if o.feat.route_key { "line-routing-substring".into() } else { "import-error".into() };
     }
+    if o.dst.is_some() && o.src_nodes == o.dst_nodes && o.dst_edges > o.src_edges {
+        return "relationship-duplicated".into();
+    }
+    if o.dst.is_some() && o.src_nodes == o.dst_nodes && o.dst_edges < o.src_edges {
+        return "relationship-lost".into();
+    }
     if !o.diff_hint.is_empty() {
         return o.diff_hint.clone();
     }
@@ -288,6 +315,12 @@ fn main() {
             }
             progs.push(p);
         }
+        // size/threshold-dependent export paths: larger graphs with holes in the id spaces
+        let n_big = if args.thorough() { 400 } else { 14 };
+        for _ in 0..n_big {
+            let mut r = rng.fork();
+            progs.push(gen_big(&mut r));
+        }
     }
 
     // run the implementation (threads), then the model and the specification (driver batch)
@@ -337,6 +370,15 @@ fn main() {
         let s2 = &replies[4 * k + 3];
         let nt = o.feat.rels > 0 && o.feat.edgy_string && o.feat.nonscalar;
         rep.case(&o.ops_txt, nt);
+        if o.src_edges >= 60 {
+            rep.count("big-graph(>=60 relationships)");
+        }
+        if o.edge_id_hole_crosses_64 {
+            rep.count("relationship-id-holes-cross-a-64-multiple");
+        }
+        if o.node_id_holes {
+            rep.count("node-id-holes");
+        }
         for e in &o.executed {
             rep.count(&format!("op:{}", e));
         }
@@ -362,6 +404,19 @@ fn main() {
             "ops {}\nsrc   {}\nimpl  {}\nmodel {}\nspec  {}\nimport_error {:?}",
             o.ops_txt, o.src, o.real, m, s, o.import_err
         );
+        // the header announces what the body holds
+        if let Some((hn, he)) = o.header_counts {
+            if hn as usize != o.src_nodes || he as usize != o.src_edges {
+                rep.count("spec_violation:export-header-count");
+                rep.spec_violation(
+                    &known,
+                    "export-header-count",
+                    &format!("the export header announces {} nodes / {} relationships, the graph has {} / {} (`{}`)", hn, he, o.src_nodes, o.src_edges, &o.ops_txt[..o.ops_txt.len().min(300)]),
+                    &body,
+                );
+                continue;
+            }
+        }
         // an export that cannot be imported, a failing export, a panic: violations by themselves
         let spec_ok = s == "ok" && o.import_err.is_none() && !o.src.is_empty() && o.dst.is_some();
         if spec_ok && (s2 != "ok" || o.gen2_err.is_some()) {
